@@ -1,6 +1,9 @@
 """property id -> check function"""
-from . import storecheck
+from . import storecheck, followcheck
 
 REGISTRY = {}
 for p in ("C01", "C05", "C06", "C07", "C08", "C09", "C20"):
     REGISTRY[p] = storecheck.run
+
+for p in ("C02", "C03", "C11"):
+    REGISTRY[p] = followcheck.run
